@@ -108,7 +108,153 @@ func divisors(fn *ast.FuncDecl) []uint64 {
 	return out
 }
 
+// c17Recv is the receiver name of a method declaration ("" if none).
+func c17Recv(fn *ast.FuncDecl) string {
+	if fn.Recv != nil && len(fn.Recv.List) == 1 && len(fn.Recv.List[0].Names) == 1 {
+		return fn.Recv.List[0].Names[0].Name
+	}
+	return ""
+}
+
+// c17CallName is the selector text of a call statement / deferred call ("" otherwise).
+func c17CallName(e ast.Expr) string {
+	if c, ok := e.(*ast.CallExpr); ok {
+		return selName(c.Fun)
+	}
+	return ""
+}
+
+// c17Mentions reports whether any selector `<x>.<field>` occurs under n.
+func c17Mentions(n ast.Node, field string) bool {
+	found := false
+	ast.Inspect(n, func(x ast.Node) bool {
+		if s, ok := x.(*ast.SelectorExpr); ok && s.Sel.Name == field {
+			found = true
+		}
+		return !found
+	})
+	return found
+}
+
+// c17LockIndex: index i of the top-level statement `<recv>.<mu>.Lock()` that is directly followed by
+// `defer <recv>.<mu>.Unlock()`, provided the mutex is not touched anywhere else in the body; -1 otherwise.
+func c17LockIndex(fn *ast.FuncDecl, mu string) int {
+	if fn.Body == nil {
+		return -1
+	}
+	recv := c17Recv(fn)
+	idx := -1
+	for i, st := range fn.Body.List {
+		es, ok := st.(*ast.ExprStmt)
+		if !ok || c17CallName(es.X) != recv+"."+mu+".Lock" || i+1 >= len(fn.Body.List) {
+			continue
+		}
+		if d, ok := fn.Body.List[i+1].(*ast.DeferStmt); ok && selName(d.Call.Fun) == recv+"."+mu+".Unlock" {
+			idx = i
+			break
+		}
+	}
+	if idx < 0 {
+		return -1
+	}
+	ops := 0
+	ast.Inspect(fn.Body, func(x ast.Node) bool {
+		if c, ok := x.(*ast.CallExpr); ok && strings.HasPrefix(selName(c.Fun), recv+"."+mu+".") {
+			ops++
+		}
+		return true
+	})
+	if ops != 2 {
+		return -1 // an early Unlock / second Lock somewhere: the critical section is not the rest of the body
+	}
+	return idx
+}
+
+// c17LockFacts: structural (hard) facts behind the atomic steps of the models.
+func c17LockFacts(fc *facts) {
+	// wal.Writer: the steps that restructure the segment list (Cut, Truncate, Rotate) run entirely under w.mu
+	// (only the sealed-flag check precedes the Lock); Put and Delete never touch the segment list.
+	wr := parseFile("dkv/wal/writer.go")
+	walOK := true
+	var why []string
+	for _, name := range []string{"Cut", "Truncate", "Rotate"} {
+		fn := findFuncOr(wr, "Writer", name)
+		i := c17LockIndex(fn, "mu")
+		if i < 0 {
+			walOK = false
+			why = append(why, name+": no `mu.Lock(); defer mu.Unlock()` covering the rest of the body")
+			continue
+		}
+		for _, st := range fn.Body.List[:i] {
+			if c17Mentions(st, "sealedBuffers") || c17Mentions(st, "activeBuffer") {
+				walOK = false
+				why = append(why, name+": segment state touched before the lock")
+			}
+		}
+	}
+	for _, name := range []string{"Put", "Delete"} {
+		if fn := findFuncOr(wr, "Writer", name); fn.Body == nil || c17Mentions(fn.Body, "sealedBuffers") {
+			walOK = false
+			why = append(why, name+": touches sealedBuffers")
+		}
+	}
+	fc.set("walMuCoversSegments", 1, walOK, "wal.Writer lock shape ("+strings.Join(why, "; ")+")")
+
+	// Table.ensureMetadataLoaded: check, loadFooter() and `metadataLoaded = true` in this order inside one
+	// metadataMu critical section that lasts to the end of the body.
+	tb := parseFile("dkv/sst/table.go")
+	fn := findFuncOr(tb, "Table", "ensureMetadataLoaded")
+	metaOK := false
+	if i := c17LockIndex(fn, "metadataMu"); i >= 0 {
+		recv := c17Recv(fn)
+		loadAt, setAt := -1, -1
+		for j, st := range fn.Body.List {
+			if es, ok := st.(*ast.ExprStmt); ok && c17CallName(es.X) == recv+".loadFooter" {
+				loadAt = j
+			}
+			if as, ok := st.(*ast.AssignStmt); ok && len(as.Lhs) == 1 && len(as.Rhs) == 1 && selName(as.Lhs[0]) == recv+".metadataLoaded" && selName(as.Rhs[0]) == "true" {
+				setAt = j
+			}
+		}
+		sets := 0
+		ast.Inspect(fn.Body, func(x ast.Node) bool {
+			if as, ok := x.(*ast.AssignStmt); ok {
+				for _, l := range as.Lhs {
+					if selName(l) == recv+".metadataLoaded" {
+						sets++
+					}
+				}
+			}
+			return true
+		})
+		metaOK = i < loadAt && loadAt < setAt && sets == 1
+	}
+	fc.set("sstMetaLoadUnderLock", 1, metaOK, "ensureMetadataLoaded: Lock; defer Unlock; …; loadFooter(); metadataLoaded = true")
+
+	// wal.Reader: the Go type of the start marker (its arithmetic wraps at 2^bits)
+	rd := parseFile("dkv/wal/reader.go")
+	bits := uint64(0)
+	ast.Inspect(rd, func(x ast.Node) bool {
+		ts, ok := x.(*ast.TypeSpec)
+		if !ok || ts.Name.Name != "Reader" {
+			return true
+		}
+		if st, ok := ts.Type.(*ast.StructType); ok {
+			for _, f := range st.Fields.List {
+				for _, n := range f.Names {
+					if n.Name == "startAfter" {
+						bits = map[string]uint64{"uint32": 32, "uint64": 64}[selName(f.Type)]
+					}
+				}
+			}
+		}
+		return false
+	})
+	fc.set("walSeqBits", bits, bits != 0, "Reader.startAfter of an unsigned integer type")
+}
+
 func c17Facts(fc *facts) {
+	c17LockFacts(fc)
 	// --- dkv/sst
 	si := parseFile("dkv/sst/search_index.go")
 	v, ok := constValue(si, "searchIndexSpacing")
